@@ -19,7 +19,11 @@ def run_impl(case):
     depth = size * gran // dw
     writable = rnd.random() < 0.75
     init = [rnd.getrandbits(dw) for _ in range(depth)] if rnd.random() < 0.7 else []
-    dut = WishboneSRAM(size=size, data_width=dw, granularity=gran, writable=writable, init=init)
+    # the image is "an iterable of initial values": a list, a tuple, or a one-shot iterator / generator
+    how = lib.rng_for(case["seed"], case["idx"], 1535).choice(["list", "list", "tuple", "iter", "gen", "map"])
+    given = {"list": lambda: list(init), "tuple": lambda: tuple(init), "iter": lambda: iter(init),
+             "gen": lambda: (v for v in init), "map": lambda: map(int, init)}[how]()
+    dut = WishboneSRAM(size=size, data_width=dw, granularity=gran, writable=writable, init=given)
     if rnd.random() < 0.3:
         # the init image may also be (re)assigned through the `init` property after construction
         init = [rnd.getrandbits(dw) for _ in range(depth)]
@@ -46,7 +50,7 @@ def run_impl(case):
     sim = simutil.simulator(simutil.wrap(dut), case)
     sim.add_clock(1e-6)
     obs, fails = [], []
-    stats = {"cycles": 0, "writes": 0, "reads": 0, "held_through_ack": 0, "partial_sel": 0, "readonly": int(not writable), "init_reassigned": reassigned,
+    stats = {"cycles": 0, "writes": 0, "reads": 0, "held_through_ack": 0, "partial_sel": 0, "readonly": int(not writable), "init_reassigned": reassigned, "init_given_as_" + how: 1,
              "cyc_or_stb_alone": 0}
     style = rnd.choice(["random", "transfers", "transfers"])
     bus = dut.wb_bus
